@@ -172,8 +172,28 @@ struct RecFilter : quill::Filter
 };
 
 // ------------------------------------------------------------------ globals
+static long parse_id(std::string_view msg);
 static std::map<std::string, std::shared_ptr<quill::Sink>> g_sinks;
 static std::map<std::string, VLogger*> g_loggers;
+static std::map<std::string, std::string> g_filesinks;                 // file sink name -> path
+static std::map<std::string, std::vector<std::string>> g_logger_files; // logger -> its file sinks
+static std::string g_dir = ".";
+
+// ids of the statements found in a file sink's file right now (what a reader of the destination sees)
+static std::string file_ids_json(std::string const& path)
+{
+  std::ifstream f(path, std::ios::binary);
+  std::string line, out = "[";
+  bool first = true;
+  while (std::getline(f, line))
+  {
+    long id = parse_id(line);
+    if (id < 0) continue;
+    out += (first ? "" : ",") + std::to_string(id);
+    first = false;
+  }
+  return out + "]";
+}
 static std::map<std::string, std::unique_ptr<vs::LT>> g_threads;
 static vs::LT g_backend;
 static quill::ManualBackendWorker* g_mbw = nullptr;
@@ -618,6 +638,22 @@ static int run_script(std::istream& in)
       e.s("s", tok[1]).b("same", s.get() == g_sinks[tok[1]].get()).i("lvl", geti(a, "lvl", 0)).s("tw", gets(a, "tw")).s("tf", gets(a, "tf"))
         .b("ov", geti(a, "ov", 0) != 0);
     }
+    else if (c == "filesink")
+    {
+      // a real quill::FileSink (optionally with a FileEventNotifier::before_write callback); its file is read right after
+      // every flush_log() return, while the sink is open
+      auto a = kv(tok, 2);
+      std::string path = g_dir + "/" + tok[1] + ".log";
+      quill::FileSinkConfig fc;
+      fc.set_open_mode('w');
+      quill::FileEventNotifier fen;
+      if (geti(a, "bw", 0)) fen.before_write = [](std::string_view m) { return std::string{m}; };
+      auto sp = VFrontend::create_or_get_sink<quill::FileSink>(path, fc, fen);
+      g_sinks[tok[1]] = sp;
+      g_filesinks[tok[1]] = path;
+      Ev e{"FileSinkCreated"};
+      e.s("s", tok[1]).b("bw", geti(a, "bw", 0) != 0);
+    }
     else if (c == "getsink")
     {
       // look a sink up by name through the public API; compare with the object the harness holds (if it still holds one)
@@ -649,6 +685,7 @@ static int run_script(std::istream& in)
         {
           if (!g_sinks.count(x)) vs::die("logger: unknown sink");
           sinks.push_back(g_sinks[x]);
+          if (g_filesinks.count(x)) g_logger_files[tok[1]].push_back(x);
         }
       }
       std::string pattern = gets(a, "pattern", "%(message)");
@@ -778,6 +815,8 @@ static int run_script(std::istream& in)
             lg->flush_log(sl);
             lt->ctx = my_ctx();
             { Ev e{"FlushRet"}; e.s("t", lt->name).s("lg", lg->get_logger_name()); }
+            // what can be read from the destination at this very moment (no yield since flush_log returned)
+            for (auto const& [fs, path] : g_filesinks) { Ev e{"FileRead"}; e.s("t", lt->name).s("s", fs).raw("ids", file_ids_json(path)); }
           });
         }
         else if (op == "initbt")
@@ -916,6 +955,11 @@ int main(int argc, char** argv)
   // remember a thread's context as soon as it has one, also when it parks in the middle of its first call
   vs::g_on_park = [](vs::LT* lt) { if (lt != &g_backend && my_ctx()) lt->ctx = my_ctx(); };
   vs::g_outpath = argv[2];
+  {
+    std::string o = argv[2];
+    auto p = o.find_last_of('/');
+    g_dir = p == std::string::npos ? "." : o.substr(0, p);
+  }
   std::set_terminate([] { vs::die("terminate"); });
   {
     Ev e{"Config"};
